@@ -435,7 +435,7 @@ func (sc *mScene) baseUpdate() *updSpec {
 		st := &channel.State{ID: mFixedID(0x78), Version: 1, App: channel.NoApp(), Data: channel.NoData(), Allocation: *mAlloc(sc.w.Asset, 9, 11)}
 		return &updSpec{St: st, Actor: 0}
 	}
-	st := sc.led.State().Clone()
+	st := sc.signed(sc.led)
 	st.Version++
 	m := 1 - sc.vIdx
 	st.Balances[0][m].Sub(st.Balances[0][m], mBig(1))
@@ -526,7 +526,7 @@ var updMuts = []updMut{
 		sc.mBal(u).Sub(sc.mBal(u), mBig(1)) // the state sent pays 2, the signature covers the payment of 1
 		sc.vBal(u).Add(sc.vBal(u), mBig(1))
 	}},
-	{Name: "sig-current-state", NeedsCh: true, F: func(sc *mScene, u *updSpec) { u.SigState = sc.led.State().Clone() }},
+	{Name: "sig-current-state", NeedsCh: true, F: func(sc *mScene, u *updSpec) { u.SigState = sc.signed(sc.led) }},
 	{Name: "sig-stranger", NeedsCh: true, F: func(_ *mScene, u *updSpec) { u.SigBy = "S" }},
 	{Name: "sig-garbage", Reduced: true, F: func(_ *mScene, u *updSpec) { u.SigBy = "garbage" }},
 	{Name: "sig-empty", Proto: true, NeedsCh: true, F: func(_ *mScene, u *updSpec) { u.SigBy = "empty" }},
@@ -639,7 +639,7 @@ func (sc *mScene) settleBase() *updSpec {
 	if sc.subFinal == nil || sc.led == nil {
 		return nil
 	}
-	st := sc.led.State().Clone()
+	st := sc.signed(sc.led)
 	st.Version++
 	k := -1
 	for i, l := range st.Locked {
@@ -749,7 +749,7 @@ func (sc *mScene) vfundBase() *vfundSpec {
 	init := &channel.State{ID: params.ID(), Version: 0, App: channel.NoApp(), Data: channel.NoData(), Allocation: *mAlloc(sc.w.Asset, 3, 3)}
 	// Alice (virtual index 0) is M, Bob (virtual index 1) is represented by the hub V
 	im := []channel.Index{1 - sc.vIdx, sc.vIdx}
-	st := sc.led.State().Clone()
+	st := sc.signed(sc.led)
 	st.Version++
 	st.Balances[0][0].Sub(st.Balances[0][0], mBig(3))
 	st.Balances[0][1].Sub(st.Balances[0][1], mBig(3))
@@ -827,7 +827,7 @@ var vfundMuts = []vfundMut{
 	{Name: "funds-above-parent", F: func(sc *mScene, f *vfundSpec) {
 		// Bob's side (paid by the hub = the victim) is one more than the victim holds; the proposed parent
 		// state keeps its sum by taking the rest from M
-		cur := sc.led.State()
+		cur := sc.signed(sc.led)
 		vb, mb := cur.Balances[0][sc.vIdx].Int64(), cur.Balances[0][1-sc.vIdx].Int64()
 		f.Init.Balances = channel.Balances{{mBig(3), mBig(vb + 1)}}
 		vLocked(f).Bals = []channel.Bal{mBig(vb + 4)}
@@ -923,7 +923,7 @@ var vsettleMuts = []vsettleMut{
 		}
 		sub := sc.vsubs[0]
 		f.Params = sub.Params().Clone()
-		f.Final = sub.State().Clone()
+		f.Final = sc.signed(sub)
 		f.resign = false
 		f.Sigs = []wallet.Sig{garbageSig(), garbageSig()}
 		// parent: remove the sub-allocation, credit everything to M
@@ -1113,7 +1113,7 @@ func (sc *mScene) curTX() channel.Transaction {
 		st := &channel.State{ID: mFixedID(0x79), Version: 2, App: channel.NoApp(), Data: channel.NoData(), Allocation: *mAlloc(sc.w.Asset, 9, 11)}
 		return channel.Transaction{State: st, Sigs: []wallet.Sig{sc.sign("M", st), nil}}
 	}
-	st := sc.led.State().Clone()
+	st := sc.signed(sc.led)
 	sigs := make([]wallet.Sig, 2)
 	sigs[1-sc.vIdx] = sc.sign("M", st)
 	return channel.Transaction{State: st, Sigs: sigs}
@@ -1148,7 +1148,7 @@ func otherCases() (out []mcase) {
 			if sc.led == nil {
 				return mFixedID(0x7a), d
 			}
-			return sc.led.ID(), sc.led.State().Version + d
+			return sc.led.ID(), sc.signed(sc.led).Version + d
 		}
 		add("resp/update-acc-unknown-id", "response", false, func(*mScene) wire.Msg {
 			return &client.ChannelUpdateAccMsg{ChannelID: mFixedID(0x7b), Version: 1, Sig: garbageSig()}
